@@ -233,6 +233,9 @@ type Hist struct {
 	unchecked       int
 	uncheckedOwners []string
 	final           bool
+	force           *Node // picks go to this container (sandwich)
+	forceNeedle     *MVal
+	hintIndex       int
 	natives         []*Native
 	byPtr           map[uintptr]*Node
 	rel             map[[2]int]string // relation between two heap citizens (node IDs; natives use negative IDs)
